@@ -40,7 +40,9 @@ func ManageCanaryDeployment(client client.Client, daemonset *v1alpha1.ExtendedDa
 		result.Result = requeuePromptly()
 	}
 
-	return result, nil
+	// the error of failed clean-up deletions is returned, as ManageDeployment does: the PodsCleanupDone condition is
+	// only set to false when it already exists, so the failure could otherwise be reported nowhere
+	return result, err
 }
 
 // podsOnNodes returns the pods located on one of the given nodes.
